@@ -23,31 +23,39 @@ pub trait Suite: frost_rerandomized::RandomizedCiphersuite {
     /// crate to `use` in a reproduction snippet
     const KRATE: &'static str;
     const IS_TAPROOT: bool = false;
+    /// another real ciphersuite (same encoding sizes where one exists) for cross-ciphersuite decoding
+    type Sibling: Suite;
 }
 impl Suite for frost_ed25519::Ed25519Sha512 {
     const NAME: &'static str = "ed25519";
     const KRATE: &'static str = "frost_ed25519";
+    type Sibling = frost_ristretto255::Ristretto255Sha512;
 }
 impl Suite for frost_ed448::Ed448Shake256 {
     const NAME: &'static str = "ed448";
     const KRATE: &'static str = "frost_ed448";
+    type Sibling = frost_ed25519::Ed25519Sha512;
 }
 impl Suite for frost_p256::P256Sha256 {
     const NAME: &'static str = "p256";
     const KRATE: &'static str = "frost_p256";
+    type Sibling = frost_secp256k1::Secp256K1Sha256;
 }
 impl Suite for frost_ristretto255::Ristretto255Sha512 {
     const NAME: &'static str = "ristretto255";
     const KRATE: &'static str = "frost_ristretto255";
+    type Sibling = frost_ed25519::Ed25519Sha512;
 }
 impl Suite for frost_secp256k1::Secp256K1Sha256 {
     const NAME: &'static str = "secp256k1";
     const KRATE: &'static str = "frost_secp256k1";
+    type Sibling = frost_secp256k1_tr::Secp256K1Sha256TR;
 }
 impl Suite for frost_secp256k1_tr::Secp256K1Sha256TR {
     const NAME: &'static str = "secp256k1-tr";
     const KRATE: &'static str = "frost_secp256k1_tr";
     const IS_TAPROOT: bool = true;
+    type Sibling = frost_secp256k1::Secp256K1Sha256;
 }
 pub const SUITE_NAMES: [&str; 6] = [
     "ed25519",
